@@ -389,13 +389,15 @@ impl SighashSignature {
     }
 
     pub(crate) fn from_bytes_impl(bytes: &[u8], sighash_buffer: &[u8]) -> Result<Self, BSVErrors> {
-        let der_bytes = if bytes.len() <= 72 { bytes } else { &bytes[..bytes.len() - 1] };
-        let signature = Signature::from_der_impl(der_bytes)?;
-        let sighash_type: SigHash = bytes
-            .last()
-            .cloned()
-            .ok_or_else(|| BSVErrors::ToSighash("Could not convert last byte of signature to Sighash flag".into()))?
-            .try_into()?;
+        // The last byte is always the sighash flag, everything before it must be the DER signature.
+        let (sighash_byte, der_bytes) = bytes
+            .split_last()
+            .ok_or_else(|| BSVErrors::ToSighash("Could not convert last byte of signature to Sighash flag".into()))?;
+        let signature = Signature {
+            sig: k256::ecdsa::Signature::from_der(der_bytes)?,
+            recovery: None,
+        };
+        let sighash_type: SigHash = (*sighash_byte).try_into()?;
         Ok(Self {
             sighash_type,
             signature,
